@@ -338,7 +338,8 @@ def _c06_meta(text):
 def run_c06(ctx):
     n = _tier(ctx, 16, 200)
     jj, _ = _jobs_from(scen.join, 'C06j', ctx['seed'], max(6, n // 2))
-    jobs = pc.corpus_jobs(['S7_*.scn', 'S12_*.scn', 'S26*.scn']) + pc.generated_jobs('C06', ctx['seed'], n, ['assets']) + jj
+    jb, _ = _jobs_from(scen.asset_burst, 'C06b', ctx['seed'], max(4, n // 4))
+    jobs = pc.corpus_jobs(['S7_*.scn', 'S12_*.scn', 'S26*.scn']) + pc.generated_jobs('C06', ctx['seed'], n, ['assets']) + jj + jb
     metas = {name: _c06_meta(text) for name, text in jobs}
 
     def orc(tr, origin):
